@@ -1,4 +1,5 @@
 import MdIt.BlockMore
+import MdIt.BlockRef
 import MdIt.InlineImage
 import MdIt.Core
 /-!
@@ -61,5 +62,20 @@ def fullParse (cls : QCls) (ext : IExt) (lx : LExt) (bc : MCfg) (ic : ICfg) (ws 
     match (if ic.inlineOn then coreInline (inlineOf cls ext lx ic mn d) bts else .ok bts) with
     | .error e => .error e
     | .ok ts => .ok (if ic.textJoinOn then textJoin ts else ts)
+
+end MdIt
+
+namespace MdIt
+
+/-- `MarkdownIt.parse(src, env)` with the `reference` block rule in the chain (ten of the eleven block rules): the inline parser sees
+    the env as the block parse left it.  Result: tokens, and the `references` / `duplicate_refs` entries the parse added to env. -/
+def fullParseR (cls : QCls) (ext : IExt) (lx : LExt) (rc : RCfg) (ic : ICfg) (ws : List Nat) (mn : Int) (d : Nat) (src : List Char) :
+    Except PyErr (List Tok × List (List Char × List Char × List Char) × List (List Char × List Char × List Char)) :=
+  match rParse ext lx rc ws mn src with
+  | .error e => .error e
+  | .ok s =>
+    match (if ic.inlineOn then coreInline (inlineOf cls ext (envAfter lx s) ic mn d) s.tokens else .ok s.tokens) with
+    | .error e => .error e
+    | .ok ts => .ok (if ic.textJoinOn then textJoin ts else ts, s.refs, s.dups)
 
 end MdIt
